@@ -38,7 +38,7 @@ theorem strMatchLen_foldEq {a b : Array Char} (h : FoldEq lower a b) (lit : List
   simp only [↓reduceIte, slice_map_lower h]
 
 theorem tokRow_foldEq {a b : Array Char} (h : FoldEq lower a b) (rx : Array Char → Nat → Option Nat) (t : Tok)
-    (hstr : ∀ lit ic, t = .str lit ic → ic = true) (hre : t = .re → ∀ p, rx a p = rx b p) :
+    (hstr : ∀ lit ic, t = .str lit ic → ic = true) (hre : t.isRx = true → ∀ p, rx a p = rx b p) :
     tokRow lower rx t a = tokRow lower rx t b := by
   have hsz := h.size_eq
   cases t with
@@ -54,10 +54,15 @@ theorem tokRow_foldEq {a b : Array Char} (h : FoldEq lower a b) (rx : Array Char
     · simp [tokRow, hsz]
     · intro i h1 h2
       simp [tokRow, hre rfl]
+  | kw lit =>
+    apply Array.ext
+    · simp [tokRow, hsz]
+    · intro i h1 h2
+      simp [tokRow, hre rfl]
   | other => rfl
 
 theorem tokTable_foldEq {a b : Array Char} (h : FoldEq lower a b) (rx : Rx) (toks : Array Tok)
-    (hstr : AllIc toks) (hre : ∀ (i : Nat), toks[i]? = some Tok.re → RxFoldInv lower rx i) :
+    (hstr : AllIc toks) (hre : ∀ (i : Nat) (t : Tok), toks[i]? = some t → t.isRx = true → RxFoldInv lower rx i) :
     tokTable lower rx toks a = tokTable lower rx toks b := by
   apply Array.ext
   · simp [tokTable]
@@ -68,7 +73,7 @@ theorem tokTable_foldEq {a b : Array Char} (h : FoldEq lower a b) (rx : Rx) (tok
     · intro lit ic ht
       exact hstr i lit ic (by rw [Array.getElem?_eq_getElem hi]; exact congrArg some ht)
     · intro ht p
-      exact hre i (by rw [Array.getElem?_eq_getElem hi]; exact congrArg some ht) a b h p
+      exact hre i toks[i] (Array.getElem?_eq_getElem hi) ht a b h p
 
 /-- the run on one input depends on the regex engine only through its answers *on that input* (the driver
 uses this: per input it plugs in the rows measured on the real `re` for that input) -/
@@ -83,6 +88,7 @@ theorem tokTable_congr_rx (rx rx' : Rx) (toks : Array Tok) (input : Array Char)
     cases t with
     | str lit ic => rfl
     | re => simp [tokRow, h]
+    | kw lit => simp [tokRow, h]
     | other => rfl
 
 theorem run_congr_rx (rx rx' : Rx) (L : Lang) (input : Array Char) (fuel : Nat)
@@ -201,6 +207,79 @@ theorem allIc_iff (toks : Array Tok) : allIc toks = true ↔ AllIc toks := by
     cases t with
     | str lit ic => exact h i lit ic hi
     | re => rfl
+    | kw lit => rfl
     | other => rfl
+
+/-! ## the regex cache: compiled objects do not depend on the history of the process -/
+
+theorem lookup_mem' {α β : Type} [BEq α] [LawfulBEq α] {l : List (α × β)} {k : α} {v : β}
+    (h : l.lookup k = some v) : (k, v) ∈ l := by
+  induction l with
+  | nil => simp at h
+  | cons kv l ih =>
+    obtain ⟨k', x⟩ := kv
+    by_cases hk : k = k'
+    · subst hk
+      simp only [List.lookup_cons_self, Option.some.injEq] at h
+      subst h
+      exact List.mem_cons_self
+    · have : (k == k') = false := by simpa using hk
+      simp only [List.lookup_cons, this] at h
+      exact List.mem_cons_of_mem _ (ih h)
+
+theorem cacheOk_nil : CacheOk [] := by
+  intro k r h
+  cases h
+
+theorem reCompile_ok {c : ReCache} (hc : CacheOk c) (pat : List Char) (ic : Bool) :
+    CacheOk (reCompile c pat ic).1 ∧ (reCompile c pat ic).2 = ⟨pat, ic⟩ := by
+  unfold reCompile
+  cases hl : c.lookup (pat, ic) with
+  | some r => exact ⟨hc, hc (pat, ic) r (lookup_mem' hl)⟩
+  | none =>
+    refine ⟨?_, rfl⟩
+    intro k r hm
+    rcases List.mem_cons.mp hm with e | hm'
+    · cases e; rfl
+    · exact hc k r hm'
+
+theorem compileLitS_ok (isWord isDigit : Char → Bool) (cfg : Cfg) {c : ReCache} (hc : CacheOk c) (l : Lit) :
+    CacheOk (compileLitS isWord isDigit cfg c l).1 ∧
+      (compileLitS isWord isDigit cfg c l).2 = compileLit isWord isDigit cfg l := by
+  cases l with
+  | str s =>
+    simp only [compileLitS, compileLit]
+    by_cases hk : (cfg.autokwd && kwdLike isWord isDigit s) = true
+    · have := reCompile_ok hc (s ++ ['\\', 'b']) cfg.ignoreCase
+      simp only [hk, ↓reduceIte]
+      exact ⟨this.1, by rw [this.2]⟩
+    · simp only [hk]
+      exact ⟨hc, rfl⟩
+  | re src =>
+    simp only [compileLitS, compileLit]
+    have := reCompile_ok hc src cfg.ignoreCase
+    exact ⟨this.1, by rw [this.2]⟩
+
+theorem buildMM_ok (isWord isDigit : Char → Bool) (cfg : Cfg) (lits : List Lit) :
+    ∀ {c : ReCache}, CacheOk c → CacheOk (buildMM isWord isDigit c cfg lits).1 ∧
+      (buildMM isWord isDigit c cfg lits).2 = lits.map (compileLit isWord isDigit cfg) := by
+  induction lits with
+  | nil => intro c hc; exact ⟨hc, rfl⟩
+  | cons l ls ih =>
+    intro c hc
+    have h1 := compileLitS_ok isWord isDigit cfg hc l
+    have h2 := ih h1.1
+    simp only [buildMM]
+    exact ⟨h2.1, by simp only [List.map_cons, h1.2, h2.2]⟩
+
+theorem buildAll_ok (isWord isDigit : Char → Bool) (hist : List (Cfg × List Lit)) :
+    ∀ {c : ReCache}, CacheOk c → CacheOk (buildAll isWord isDigit c hist) := by
+  induction hist with
+  | nil => intro c hc; exact hc
+  | cons h rest ih =>
+    intro c hc
+    obtain ⟨cfg, lits⟩ := h
+    unfold buildAll
+    exact ih (buildMM_ok isWord isDigit cfg lits hc).1
 
 end Peg.Case
